@@ -145,6 +145,14 @@ Next ==
 
 Spec == Init /\ [][Next]_vars
 
+(* C08, liveness at design level: a connection task that has left its main loop finishes, whatever the applications
+   do -- provided both connection tasks keep being polled and an application whose accept queue is full keeps
+   accepting (the receive loop of its task is stalled until it does).  Checked without VIEW. *)
+TaskStep == \E e \in E : TUnblock(e) \/ TRecv(e) \/ TSend(e) \/ TSinkErr(e) \/ TDrop(e) \/ TWd(e)
+AcceptStep == \E e \in E : AAccept(e)
+FairSpec == Init /\ [][Next]_vars /\ WF_vars(TaskStep) /\ WF_vars(AcceptStep)
+WdTerminates == \A e \in E : (st.task[e].ph \notin {"run", "done"}) ~> (st.task[e].ph = "done")
+
 View == [st EXCEPT !.obs = NoObs]
 
 Bound == (\A e \in E : Len(st.hnd[e]) <= MaxHandles) /\ st.ctr <= MaxCtr + 1
